@@ -329,7 +329,12 @@ def asarray(a, dtype=None):
     raise core.Unsupported(f"asarray of {type(a)}")
 
 
-array = asarray
+def array(a, dtype=None, copy=True):
+    """numpy.array copies its argument (numpy.asarray does not): in-place operations on the result leave the source alone"""
+    r = asarray(a, dtype)
+    if r is a and copy:
+        return Arr(list(r.v), r.dtype)
+    return r
 
 
 def sum_(a, axis=None, dtype=None):
@@ -553,11 +558,18 @@ def _items(a):
 
 
 def cumsum(a, axis=None, dtype=None, out=None):
-    out, t = [], None
+    res, t = [], None
     for x in _items(a):
         t = x if t is None else t + x
-        out.append(t)
-    return Arr(out, asarray(list(_items(a))).dtype if len(out) else float)
+        res.append(t)
+    r = Arr(res, asarray(list(_items(a))).dtype if len(res) else float)
+    if out is not None:
+        # numpy writes the result into `out` (which may be the input itself) and returns it
+        if not isinstance(out, Arr) or len(out.v) != len(res):
+            raise core.Unsupported("cumsum(out=...) with another shape / type")
+        out.v[:] = r.v
+        return out
+    return r
 
 
 def prod(a, axis=None, dtype=None):
@@ -788,7 +800,7 @@ class Shim:
     """Object bound to the name `np` inside the rewritten modules."""
 
     asarray = staticmethod(asarray)
-    array = staticmethod(asarray)
+    array = staticmethod(array)
     sum = staticmethod(sum_)
     all = staticmethod(all_)
     any = staticmethod(any_)
